@@ -155,9 +155,11 @@ RefOf(supi, consumer, n) ==
   IF DEV_RefConcat THEN supi \o consumer \o ToString(n)
                    ELSE supi \o "-" \o consumer \o "-" \o ToString(n)
 
-NewRec(ref, n, chid, consumer, subscriber, pad) ==
+\* (`plmn`: the consumer's PLMN "mcc/mnc", "" when the create names none)
+NewRec(ref, n, chid, consumer, subscriber, pad, plmn) ==
   [ref |-> ref, lrsn |-> n, chid |-> chid, consumer |-> consumer, subscriber |-> subscriber,
-   cause |-> 0, rsn |-> -1, conts |-> <<>>, pad |-> pad]
+   cause |-> 0, rsn |-> -1, conts |-> <<>>, pad |-> pad, plmn |-> plmn]
+PlmnOf(a) == IF "plmn" \in DOMAIN a THEN a.plmn ELSE ""
 
 (* create: a = [u, supi, c, onetime, usage, chid, pad, notify]  *)
 Create(st, a) ==
@@ -166,7 +168,7 @@ Create(st, a) ==
       ue1  == [ue0 EXCEPT !.notify = a.notify]
       ref  == IF a.onetime THEN "" ELSE RefOf(a.supi, a.c, st.lrsn)
       n    == st.lrsn + 1
-      rec  == [NewRec(ref, n, a.chid, a.c, a.sub, a.pad) EXCEPT !.conts = Ids(a.usage)]
+      rec  == [NewRec(ref, n, a.chid, a.c, a.sub, a.pad, PlmnOf(a)) EXCEPT !.conts = Ids(a.usage)]
       recs == Append(ue1.recs, rec)
       ue2  == [ue1 EXCEPT !.recs = recs, !.cdr = Upd(ue1.cdr, ref, Len(recs))]
   IN [st |-> [st EXCEPT !.ue = Upd(st.ue, u, ue2), !.lrsn = n],
@@ -277,7 +279,7 @@ HInit(acct) == [credited |-> [k \in Dom(acct) |-> acct[k].quota],
 HCreate(h, a, resp) ==
   IF resp.status = 201 /\ ~a.onetime
     THEN [h EXCEPT !.sess = Upd(h.sess, resp.ref,
-            [u |-> a.u, chid |-> a.chid, consumer |-> a.c, sub |-> a.sub, live |-> TRUE, ids |-> Ids(a.usage)])]
+            [u |-> a.u, chid |-> a.chid, consumer |-> a.c, sub |-> a.sub, plmn |-> PlmnOf(a), live |-> TRUE, ids |-> Ids(a.usage)])]
     ELSE h
 HUpdate(h, a, resp) ==
   IF resp.status = 200
@@ -339,7 +341,7 @@ RecordIdentityAt(st, h, ref) ==
   s.u \in Dom(st.ue) /\
   \A i \in 1..Len(st.ue[s.u].recs) :
      LET r == st.ue[s.u].recs[i] IN
-     r.ref = ref => (r.chid = s.chid /\ r.consumer = s.consumer /\ r.subscriber = s.sub)
+     r.ref = ref => (r.chid = s.chid /\ r.consumer = s.consumer /\ r.subscriber = s.sub /\ r.plmn = s.plmn)
 
 \* C10
 RefFresh(h, ref) == ~(ref \in Dom(h.sess) /\ h.sess[ref].live)
